@@ -65,6 +65,10 @@ def describe(c):
         inc, stage = pr
         w = ' writer=reused(same object wrote before: %s %s; that text is discarded)' % (
             ('an incremental' if ext else 'initProgram(true) refused and caught, then a non-incremental') if inc else 'a non-incremental', PRIMER_STAGES[stage])
+    h = RU.fnv(c)
+    if (h >> 21) & 1:
+        # harness/h_c05.cpp: hash-selected reader option, used when the written text contains no `_heuristic(` (then it is invisible)
+        w += ' reader-options=+convertHeuristic%s(unless the text contains "_heuristic(")' % ('+dropConverted' if (h >> 22) & 1 else '')
     return 'N=%d ext=%d false=%d%s%s calls: %s' % (n, ext, f, ' [caller catches refusals and continues]' if is_cont(c) else '', w, K.pretty(calls))
 
 
@@ -417,6 +421,31 @@ def r_step(rnd, ext, f):
     return s
 
 
+DUP_NAMES = [b'a', b'b', b'', b'p(1)', b'x y', b'_x']
+
+
+def r_step_dup(rnd, ext, f, names, atoms):
+    """a step whose symbol table draws from a FEW names and atoms: the same name for two atoms, and the same (atom, name) line twice, within
+    one table and across the steps of an incremental program (SmodelsOutput writes every output call as a line; all of them must come back)"""
+    s = [(2,)]
+    s += [r_ruledir(rnd, ext, f) for _ in range(rnd.choice([0, 1, 2, 3]))]
+    s += [(8, rnd.choice(names), [rnd.choice(atoms)]) for _ in range(rnd.choice([1, 2, 3, 4, 6]))]
+    if rnd.random() < 0.4:
+        s.append((10, [r_lit(rnd) for _ in range(rnd.choice([0, 1, 2]))]))
+    s.append((3,))
+    return s
+
+
+def r_prog_dup(rnd, ext, f):
+    inc = ext and rnd.random() < 0.7
+    names = rnd.sample(DUP_NAMES, rnd.choice([1, 2, 2, 3]))
+    atoms = rnd.sample([1, 2, 3, 4, 7, INT_MAX], rnd.choice([1, 2, 2, 3]))
+    p = [(1, inc)]
+    for _ in range(rnd.choice([2, 2, 3]) if inc else 1):
+        p += r_step_dup(rnd, ext, f, names, atoms)
+    return p
+
+
 def r_prog(rnd, ext, f):
     inc = ext and rnd.random() < 0.4
     p = [(1, inc)]
@@ -580,6 +609,13 @@ FIXED_TWO = [
 ]
 
 
+FIXED_DUP = [
+    ((False, 0), [(1, False), (2,), (4, 0, [1], [2]), (8, b'a', [1]), (8, b'a', [2]), (3,)], 'two-atoms-one-name'),
+    ((False, 0), [(1, False), (2,), (4, 0, [1], [2]), (8, b'a', [1]), (8, b'b', [2]), (8, b'a', [1]), (3,)], 'same-line-twice'),
+    ((True, 0), [(1, True), (2,), (4, 1, [1, 2], []), (8, b'a', [1]), (8, b'b', [2]), (3,), (2,), (4, 0, [3], [1]), (8, b'a', [1]), (8, b'a', [3]), (3,)], 'later-step'),
+]
+
+
 def gen(seed, tier):
     rnd = random.Random(seed * 1000003 + 5)
     total = {'quick': 3000, 'thorough': 100000, 'search': 5000}.get(tier, 2500)
@@ -631,6 +667,17 @@ def gen(seed, tier):
         else:
             q, k = deviate(rnd, p, ext, f)
             out.append((mk(n, ext, f, q), {'kind': 'deviation-' + k}))
+    # symbol tables with repeated names / repeated lines (own RNG: the streams above are unchanged); the hash-selected reader option of
+    # the harness (convertHeuristic: symbols through the reader's name table) falls on about half of them
+    r2 = random.Random(seed * 1000003 + 77)
+    for (ext, _), p, kind in FIXED_DUP:
+        for n in SIZES:
+            for f in (0, 1, 7, INT_MAX):    # 12 cases per program = 12 draws of the hash bit: both reader option settings occur
+                out.append((mk(n, ext, f, p), {'kind': 'fixed-repeated-names-' + kind}))
+    for _ in range({'quick': 300, 'thorough': 6000, 'search': 500}.get(tier, 300)):
+        ext = r2.random() < 0.7
+        f = r2.choice([0, 0, 1, 7])
+        out.append((mk(r2.choice(SIZES), ext, f, r_prog_dup(r2, ext, f), r2.random() < 0.2), {'kind': 'repeated-names-ext' if ext else 'repeated-names'}))
     return out
 
 
@@ -658,6 +705,9 @@ RULE = ('cases = (BUF_SIZE variant of the reader in {4096,16,32}, clasp extensio
         'project / heuristic / edge / theory, negative bound, weight body with choice / disjunctive head, empty head, external without extensions, rules behind symbols, output / second compute behind the compute statement), '
         'every call judged against the calls accepted before it and the re-read text against the accepted calls alone; '
         'WRITER REUSE: every other case that starts with initProgram is played on a SmodelsOutput OBJECT that has written another program before (hash of the case: incremental or not - refused and caught without the extensions -; complete, or abandoned in the rule section with the false atom used / behind the symbol table / behind the compute statement and a refused call), that text discarded; '
+        'READER OPTION: every other case (hash of the case) whose written text contains no `_heuristic(` is read back with SmodelsInput::Options::convertHeuristic (and half of those with dropConverted) in addition: '
+        'no name is a heuristic predicate, so nothing is converted and the option only routes every symbol through the reader\'s private name table (shared by all steps) - it must be invisible; '
+        'a stream "repeated-names" draws the symbol tables from a few names and atoms (one name for two atoms, the same output call twice, again in a later step of an incremental program: SmodelsOutput writes every output call as a line and all of them must come back); '
         '5% of the random cases hold TWO programs for one writer (first one complete, cut off anywhere, with refused calls; judged through the model); '
         'non-trivial = the reader delivered more than init/begin/end or the writer refused; distinct = distinct case tuples')
 TRUSTED_BASE = ['coq/C09/Spec.v abstract stream; coq/C07 reader model (tied to the code by C07\'s own correspondence)',
@@ -674,7 +724,7 @@ LEVEL_TEXT = ('Coq model of SmodelsOutput composed with the C07 reader model; ma
               'is read back as their normal form (c05_continue_roundtrip); one writer object used for several programs: initProgram assigns inc_, beginStep assigns sec_ / fHead_, so initProgram; beginStep; ANY calls on a writer in ANY state '
               'get the statuses and append exactly the text of a new writer with the same extensions flag / false atom (c05_init_any_state, c05_begin_forgets, c05_second_program_like_fresh), a program of the fragment is read back as its normal form whatever the writer did before '
               '(c05_second_program_roundtrip, c05_history_then_program). Proof route: the written text is the rendering of a laid-out program of C07/Spec.v that is '
-              'layout_ok, in_range and denotes sm_norm p, then c07_complete. The model is tied to the code by differential correspondence (bytes written + reader calls) and the Coq '
+              'layout_ok, in_range and denotes sm_norm p, then c07_complete. The model is tied to the code by differential correspondence (bytes written + reader calls; for half of the cases the real reader additionally runs with convertHeuristic on texts without a heuristic predicate, where the option must not change anything) and the Coq '
               'fragment/normal-form definitions are cross-checked against the independent python normaliser that judges the implementation (c05_spec_matches_oracle).')
 LEVEL_NOTE = ('c05_roundtrip is full over in_fragment (boolean, coq/C05/Spec.v). Excluded from in_fragment, as from the property\'s quantifier: names containing LF/CR/NUL, negative rule-body weights, '
               'minimize/external after symbols, |minimize weight| = 2^31, list lengths >= 2^32; and the KNOWN finding probe-leading-9 (non-incremental program whose first written line is an external: c05_probe_refuted).')
